@@ -211,7 +211,6 @@ class LocalAnomalyScore(BaseLocalAnomalyScore):
         super().__init__()
 
         self._interval_cost = cost
-        self._any_subset_cost: BaseCost = cost.clone()
 
     @property
     def min_size(self) -> int:
@@ -234,6 +233,9 @@ class LocalAnomalyScore(BaseLocalAnomalyScore):
             Reference to self.
         """
         self._interval_cost.fit(X)
+        # Cloned here and not in __init__, so that it always has the current
+        # parameters of the cost, also after `set_params(cost__<parameter>=...)`.
+        self._any_subset_cost: BaseCost = self.cost.clone()
         return self
 
     def _evaluate(self, cuts: np.ndarray) -> np.ndarray:
